@@ -37,7 +37,7 @@ RULE = ('sweep: for each of the 65 evaluator configurations (63 of harness/evalr
         'averages, largest remainder, transferable vote, Schulze, Copeland, minimax, positional, approval, score). model-shape: the checker on the '
         'extracted get_n_best model (sanity of the wire encoding). baldwin: differential of the extracted Model/Elimination.v against sequential.Baldwin (six rank scorers; 1..6 candidates, bullet / truncated ballots, shared ranks, zero weights and weights up to 10^20, symmetrised profiles, tied losers ranked together at the bottom, one all-inclusive shared rank, an empty shared rank (ValueError on both sides), n in {0, 1, k-1, k, k+1, random}; 12 % of the cases compare the negative-score dictionary itself) with the declarative clause of C08_shape_baldwin evaluated on the implementation answer (well-formed profile, 1 <= n <= candidates: exactly n entries in shape, never an exception). sweeps: an exception other than VotingSystemError / NotImplementedError is also a violation for Baldwin, for Benham (one seat) and TidemanAlternative (every n) on a profile on which somebody stands, a single candidate included (theorems C08_shape_baldwin / benham / tideman / tideman_outcomes / hybrids_single_candidate; the TypeError of TidemanAlternative for n >= 2 - finding C08-tideman-multiseat - and the IndexError on a single candidate are fixed and count as violations). approval-simple: the extracted Model/ApprovalSimple.v against ApprovalToSimpleVotes(split).convert on random / symmetrised approval profiles with blank ballots and zero weights. non-trivial = result contains a tie or a refusal; distinct by case hash')
 PARTIAL = ['no shape theorem (decided per explored case by the verified checker): the first-preference composite, '
-           'allocated score (shape clause refuted: C08_shape_allocated_score_refuted); Benham / Tideman / Baldwin / positional theorems are over well-formed profiles '
+           'allocated score: C08_shape_allocated_score is about the repaired selector (fixes/C12-allocated-score-exhausted, -tie-seats; the pinned routine: C08_shape_allocated_score_refuted); Benham / Tideman / Baldwin / positional theorems are over well-formed profiles '
            '(no candidate twice on a ballot, no negative weight resp. no empty shared rank); Benham / TidemanAlternative theorems are about the library with '
            'fixes/C05-tideman-tiers.diff and fixes/C05-hybrid-single-candidate.diff (for the code without them: C08_shape_tideman_multiseat_refuted, '
            'C08_shape_hybrids_single_candidate_refuted); the library has no Coombs class',
@@ -258,6 +258,10 @@ def judge_error(e, r, case):
     case['_class'] = 'crash:' + common.E_NAME.get(code, str(code))
     if e['family'] in LISTED:
         return 'undeclared exception %s' % (r[2],)
+    if e['name'].startswith('allocated_score'):
+        # C08_shape_allocated_score / C12_alloc_answers (repaired library, fixes/C12-allocated-score-exhausted): the allocation loop
+        # has no error outcome on a profile with positive weights - the ValueError / IndexError of the exhausted ballots is fixed
+        return 'allocated score raises %s although the repaired allocation loop answers for every profile' % (r[2],)
     if e['name'] == 'baldwin':
         # C08_shape_baldwin: on a well-formed profile Baldwin always answers (the registry's ranked profiles are well-formed)
         return 'Baldwin raises %s although it has an answer for every well-formed profile' % (r[2],)
@@ -297,8 +301,8 @@ def judge_dist(e, cands, seats, val, case):
 
 def known_class(c, io, mo):
     ev, cls = c.get('evaluator', ''), c.get('_class', '')
-    if ev == 'allocated_score' and cls == 'shape:tie-once':
-        return 'C08-allocated-score-shape'
+    # wave 6: C08-allocated-score-shape is repaired (fixes/C12-allocated-score-tie-seats, C08_shape_allocated_score): a tie listed
+    # once for several seats is a violation again
     if ev in ('bucklin', 'oklahoma') and cls == 'shape:short':
         return 'C08-preference-addition-short'
     if ev == 'star' and cls == 'shape:short':
